@@ -7,11 +7,16 @@ Definition vadd a b := V3 (vx a + vx b) (vy a + vy b) (vz a + vz b).
 Definition vsub a b := V3 (vx a - vx b) (vy a - vy b) (vz a - vz b).
 Definition vscal c a := V3 (c * vx a) (c * vy a) (c * vz a).
 Definition vpow a (n : nat) := V3 (vx a ^ n) (vy a ^ n) (vz a ^ n).   (* a ** n, elementwise *)
+Definition vmul a b := V3 (vx a * vx b) (vy a * vy b) (vz a * vz b).   (* a * b, elementwise *)
 Definition vsum a := vx a + vy a + vz a.                            (* np.sum(a, axis=1) *)
 Definition norm2 a := vsum (vpow a 2).
 (* np.sign *)
 Definition sgn (x : R) : R := if Rlt_dec 0 x then 1 else if Rlt_dec x 0 then -1 else 0.
 
+Lemma vec3_eq a b : vx a = vx b -> vy a = vy b -> vz a = vz b -> a = b.
+Proof. destruct a, b; cbn; intros -> -> ->; reflexivity. Qed.
+Lemma vsum_vmul_self a : vsum (vmul a a) = vsum (vpow a 2).
+Proof. unfold vsum, vmul, vpow; cbn. ring. Qed.
 Lemma norm2_nonneg a : 0 <= norm2 a.
 Proof. unfold norm2, vsum, vpow; cbn. nra. Qed.
 Lemma norm2_expand a : norm2 a = vx a * vx a + vy a * vy a + vz a * vz a.
